@@ -5,7 +5,7 @@ bit-vector mode): addi/subi/muli = + - *; divui/remui = floor division / remaind
 assumed non-negative: they are sizes, strides, bounds); shli = * 2^k; ori/andi only in bit-vector mode."""
 from xdsl.dialects.builtin import IndexType, IntAttr, IntegerAttr, IntegerType
 from xdsl.ir import Operation, SSAValue, den
-from pyvc.api import bv_add, bv_and, bv_const, bv_lshr, bv_mul, bv_or, bv_sext, bv_shl, bv_sub, bv_zext
+from pyvc.api import bv_add, bv_and, bv_ashr, bv_const, bv_lshr, bv_mul, bv_or, bv_sext, bv_shl, bv_smax, bv_smin, bv_sub, bv_zext
 
 
 MODE = {"bv": False}  # bit-vector mode: integer-typed constants denote fixed-width words
@@ -95,6 +95,23 @@ class ShLIOp(_Binary):
 class ShRUIOp(_Binary):
     def sem(self, a, b):
         return bv_lshr(a, b, self.width) if MODE["bv"] else a >> b
+
+
+class ShRSIOp(_Binary):
+    """arithmetic shift right: floor division by 2^k on mathematical integers"""
+
+    def sem(self, a, b):
+        return bv_ashr(a, b, self.width) if MODE["bv"] else a >> b
+
+
+class MinSIOp(_Binary):
+    def sem(self, a, b):
+        return bv_smin(a, b, self.width) if MODE["bv"] == "all" else min(a, b)
+
+
+class MaxSIOp(_Binary):
+    def sem(self, a, b):
+        return bv_smax(a, b, self.width) if MODE["bv"] == "all" else max(a, b)
 
 
 class OrIOp(_Binary):
